@@ -113,6 +113,11 @@ def run(ctx):
     marker_rows_in_final_transaction(r1, repo, nonempty_ok)
     r5 = ctx.rule("C03.5", "a call node left without subtree rows is completed by the next recording (or the CSE reader refuses the empty set)", floor=1)
     subtree_repair_obligation(r5, repo)
+    # C03.6: the set the recorded subtree is compared with (C03.3: <registry>.task_hashes) is exactly the hashes of the tasks the registry holds now.
+    # A hash that stays counted after its task was redefined makes an old call node look current.  The pairing obligations are C37.1's.
+    from . import C37 as _c37
+
+    _c37.run(_BorrowCtx(ctx, {"C37.1": "C03.6"}))
     # subtree rows for one call node are written in one transaction
     rc = db.func("RedunBackendDb.record_call_node")
     loops = [st for st in ast.walk(rc) if isinstance(st, ast.For) and any(call_name(c) == "CallSubtreeTask" for c in calls_in(st))]
@@ -373,3 +378,37 @@ def subtree_repair_obligation(rule, repo):
         db.rel,
         rc.lineno,
     )
+
+
+class _NullRule:
+    def check(self, *a, **k):
+        return True
+
+    def good(self, *a, **k):
+        pass
+
+    def violation(self, *a, **k):
+        pass
+
+
+class _BorrowCtx:
+    """Runs another property's rules and keeps only the named ones, re-filed under this property's rule id."""
+
+    def __init__(self, ctx, keep: dict):
+        self._ctx, self._keep = ctx, keep
+
+    def rule(self, rid, desc, floor=1):
+        if rid in self._keep:
+            return self._ctx.rule(self._keep[rid], f"{desc} (the obligations of {rid})", floor)
+        return _NullRule()
+
+    def assume(self, *a, **k):
+        pass
+
+    def __getattr__(self, name):
+        return getattr(self._ctx, name)
+
+    def __setattr__(self, name, value):
+        if name in ("_ctx", "_keep"):
+            object.__setattr__(self, name, value)
+        # attributes the borrowed rules set on their own context (paths_enumerated, ...) are dropped
